@@ -20,8 +20,10 @@ TRUSTED = ["harness uigen in omit mode + xml.etree; the erasure of the faulted o
            "faults that are syntax errors (tree-sitter recovery) are outside this check (C07 covers totality)"]
 
 BINDING_FAULTS = ["unknown-property", "ill-typed", "unknown-signal", "unknown-attached-property", "unknown-attached-type", "duplicate", "duplicate-attached", "map-on-scalar",
-                  "ill-typed-attached"]
+                  "ill-typed-attached", "ill-typed-pseudo"]
 OBJECT_FAULTS = ["unknown-object-type", "invalid-object-type"]
+# faults of ONE binding that builds on its own: objcode.rs drops that binding and nothing else
+ALONE = {"unknown-property", "ill-typed", "unknown-signal", "unknown-attached-property", "unknown-attached-type", "map-on-scalar", "ill-typed-attached", "ill-typed-pseudo"}
 
 
 def blank_ids(rng, root):
@@ -75,6 +77,13 @@ def plant(rng, root):
             o = rng.choice(cands)
     elif kind in ("unknown-attached-type", "unknown-attached-property") and cands and rng.random() < 0.7:
         o = rng.choice(cands)          # next to valid attached bindings, whose effect reaches the siblings
+    if kind == "ill-typed-pseudo":
+        # flow / columns / rows of a grid layout are read one by one (LayoutFlow::parse): an ill-typed one leaves the others in effect
+        grids = [x for x in objs if x["cls"] == "QGridLayout" and x["children"]]
+        if not grids:
+            kind = "unknown-property"
+        else:
+            o = rng.choice(grids)
     if o["id"] is None:
         o["id"] = o["oid"]          # the faulted object is addressed by its id
     for x in U.walk(root):
@@ -99,6 +108,10 @@ def plant(rng, root):
         used = {m["name"] for a, ms in o["attached"] if a == "ALayout" for m in ms}
         free = [n for n in ("columnStretch", "rowStretch", "columnMinimumWidth", "rowMinimumHeight") if n not in used] or ["columnStretch"]
         o["faults"].append({"key": kind, "text": 'QLayout.%s: "wide"' % rng.choice(free)})
+    elif kind == "ill-typed-pseudo":
+        have = {b["name"] for b in o["props"]}
+        free = [t for n, t in (("rows", 'rows: "x"'), ("columns", 'columns: "many"'), ("flow", 'flow: "down"'), ("flow", "flow: 1"), ("rows", "rows: 1.5")) if n not in have]
+        o["faults"].append({"key": kind, "text": rng.choice(free) if free else "fooBar: 1"})
     elif kind == "map-on-scalar":
         o["faults"].append({"key": kind, "text": "objectName { x: 1 }"})
     elif kind == "duplicate":
@@ -113,6 +126,23 @@ def plant(rng, root):
         m = rng.choice(ms)
         o["faults"].append({"key": kind, "text": "QLayout.%s: %s" % (m["name"], m["src"])})
     return kind, o, root, good
+
+
+def pseudo_pairs():
+    """grid layouts whose flow is decided by two or three of flow / columns / rows, one of them ill-typed: (faulted, fault-free) documents"""
+    out = []
+    valid = {"flow": ["flow: QGridLayout.TopToBottom", "flow: QGridLayout.LeftToRight"], "columns": ["columns: 2", "columns: 3"], "rows": ["rows: 2", "rows: 3"]}
+    bad = {"flow": ['flow: "down"', "flow: 1"], "columns": ['columns: "many"', "columns: 1.5"], "rows": ['rows: "x"', "rows: true"]}
+    kids = "".join("        QLabel { id: k%d; text: \"%d\" }\n" % (i, i) for i in range(5))
+    for fname in ("flow", "columns", "rows"):
+        others = [n for n in ("flow", "columns", "rows") if n != fname]
+        for f in bad[fname]:
+            for a in valid[others[0]] + [None]:
+                for b in valid[others[1]] + [None]:
+                    keep = "".join("        %s\n" % x for x in (a, b) if x)
+                    doc = lambda extra: "import qmluic.QtWidgets\nQWidget {\n    id: root\n    QGridLayout {\n        id: grid\n%s%s%s    }\n}\n" % (keep, extra, kids)
+                    out.append(("ill-typed-pseudo", {"id": "grid", "oid": "grid", "kind": "layout", "parent_id": "root"}, None, None, doc("        %s\n" % f), doc("")))
+    return out
 
 
 def canon(el, ids):
@@ -221,11 +251,16 @@ def run(ctx):
         kind, o, bad, good = plant(rng, root)
         ctx.dist("fault-" + kind)
         cases.append((kind, o, bad, good, U.render(bad), U.render(good)))
+    for c in pseudo_pairs():
+        ctx.dist("fault-ill-typed-pseudo (constructed)")
+        cases.append(c)
     if ctx.replay and "qml_faulted" in ctx.replay:
         cases = [(ctx.replay["fault"], {"id": ctx.replay.get("object"), "oid": ctx.replay.get("object")}, None, None, ctx.replay["qml_faulted"], ctx.replay["qml_fault_free"])]
     bad_out = qml.run_docs(vh, [c[4] for c in cases], mode="omit")
     good_out = qml.run_docs(vh, [c[5] for c in cases], mode="omit")
     exact = 0
+    pending_layout = []
+    dropped_alone = []
     for (kind, o, bad, good, qb, qg), rb, rg in zip(cases, bad_out, good_out):
         ctx.count(qb, True)
         rep = {"fault": kind, "object": o.get("id") or o.get("oid"), "qml_faulted": qb, "qml_fault_free": qg}
@@ -262,11 +297,49 @@ def run(ctx):
                           dict(rep, impl_output={"faulted": rb["ui"], "fault_free": rg["ui"]}, theorem_or_correspondence="C20_subtree_absent / S"))
             continue
         target = o["id"]
+        ctx.dist("form-differs-" + kind)
+        if kind in ALONE and o.get("kind") != "action" and not dropped_alone:
+            # model/Recovery.v elaborate_props: a binding that fails to build is dropped ALONE (the property itself allows the object to lose more of its own values)
+            dropped_alone.append("a %s fault at %s %s removes more than the faulty binding: %s\n%s" % (kind, o.get("kind"), o.get("id"), first_diff(ta, tb), qb))
+        if o.get("kind") == "layout" and good is not None:
+            pending_layout.append((kind, o, good, qb, qg, ta, ids, rep, rb, rg))
         ea, eb = erase_own(ta, target, o.get("parent_id"), o.get("kind")), erase_own(tb, target, o.get("parent_id"), o.get("kind"))
         if ea != eb:
             what = "a %s fault at object %s changes the form outside that object: %s" % (kind, o.get("id") or "(anonymous %s)" % o["cls"], first_diff(ea, eb))
             ctx.violation(what, dict(rep, impl_output={"faulted": rb["ui"], "fault_free": rg["ui"]}, theorem_or_correspondence="C20_local / S"))
+    # a faulted LAYOUT may lose its own values (flow, columns, spacing ...), which moves the cells of its children; nothing else may move them: the faulted form must be
+    # exactly the form of the fault-free document with SOME subset of that layout's own bindings removed
+    import itertools
+    variants, owners = [], []
+    for ci, (kind, o, good, qb, qg, ta, ids, rep, rb, rg) in enumerate(pending_layout[:60 if ctx.tier == "thorough" else 25]):
+        g = [x for x in U.walk(good) if x.get("oid") == o.get("oid")]
+        if len(g) != 1 or len(g[0]["props"]) > 6:
+            continue
+        g = g[0]
+        allp = list(g["props"])
+        for k in range(1, len(allp) + 1):
+            for sub in itertools.combinations(range(len(allp)), k):
+                g["props"] = [b for i, b in enumerate(allp) if i not in sub]
+                variants.append(U.render(good))
+                owners.append(ci)
+        g["props"] = allp
+    vout = qml.run_docs(vh, variants, mode="omit") if variants else []
+    explained = {}
+    for ci, r in zip(owners, vout):
+        if isinstance(r, dict) and r.get("ui") is not None:
+            kind, o, good, qb, qg, ta, ids, rep, rb, rg = pending_layout[ci]
+            if canon(qml.parse_ui(r["ui"]), ids) == ta:
+                explained[ci] = True
+    for ci in sorted(set(owners)):
+        ctx.dist("layout-fault-subset-search")
+        if ci not in explained:
+            kind, o, good, qb, qg, ta, ids, rep, rb, rg = pending_layout[ci]
+            ctx.violation("a %s fault at layout %s changes the form in a way that the loss of no subset of that layout's own bindings explains" % (kind, o.get("id")),
+                          dict(rep, impl_output={"faulted": rb["ui"], "fault_free": rg["ui"]}, theorem_or_correspondence="C20_local / S (subset search)"))
+    ctx.coverage["layout_faults_explained_by_own_losses"] = len(explained)
     ctx.coverage["forms_exactly_equal"] = exact
+    if dropped_alone and not ctx.violations:
+        ctx.broke("K", "objcode.rs build_properties_callbacks / layout.rs LayoutFlow::parse vs model/Recovery.v elaborate_props (a failing binding is dropped alone)", dropped_alone[0])
     # ---- K: the preview of faulted documents vs model/Recovery.v (all objects named, binding faults only)
     kn = 1500 if ctx.tier == "thorough" else 120
     kroots, kdocs = [], []
